@@ -8,6 +8,8 @@ def stage(n):
     except Exception:
         return {"entries": []}
 base, ours, theirs = stage(1), stage(2), stage(3)
+if not ours["entries"] or not theirs["entries"]:
+    sys.exit("known_findings.json is not in a conflicted merge (no stages): nothing done")
 key = lambda e: (e.get("property"), e.get("sig"))
 b = {key(e): e for e in base["entries"]}
 o = {key(e): e for e in ours["entries"]}
